@@ -569,6 +569,101 @@ def run_signalpdf(ctx, rng, n_groups):
                 break
 
 
+PS_SITE = 'PointLikeSourceI3SignalGenerationMethod.signal_event_post_sampling_processing'
+
+
+def post_sampling_tables(rng, n_random):
+    """(sources, source index per event): deterministic sparse / unordered / single-source tables first (a lower-index
+    source without events, only the last source, descending order, one event), then random ones"""
+    src3 = [(math.radians(10), math.radians(5)), (math.radians(120), math.radians(-30)), (math.radians(250), math.radians(60))]
+    src5 = src3 + [(4.0, 1.2), (0.5, -1.0)]
+    out = [(src3, [0, 2, 2, 0, 2, 0, 2, 2]), (src3, [2, 2, 2]), (src3, [1]), (src3, [2, 1]), (src3, [0, 1, 2, 1, 0, 2, 2, 1]),
+           (src5, [4, 1, 4, 3, 1]), (src5, [3]), (src5, [4, 4, 0]), (src5, [2, 0])]
+    for _ in range(n_random):
+        k = rng.randint(1, 6)
+        srcs = [rnd_dir(rng) for _ in range(k)]
+        used = [i for i in range(k) if rng.random() < 0.6] or [k - 1]
+        out.append((srcs, [rng.choice(used) for _ in range(rng.randint(1, 12))]))
+    return out
+
+
+def run_post_sampling(ctx, rng, lines, checks, n_random):
+    """the real caller of rotate_signal_events_on_sphere on real DataFieldRecordArray events with sparse source-index
+    tables: every event is checked against ITS OWN source (seeded C19-7: source looked up by loop position)"""
+    from skyllh.i3.signal_generation import PointLikeSourceI3SignalGenerationMethod
+    from skyllh.core.source_model import PointLikeSource
+    from skyllh.core.storage import DataFieldRecordArray
+
+    class _SHG:
+        def __init__(self, srcs):
+            self.source_list = [PointLikeSource(ra=a, dec=b) for (a, b) in srcs]
+
+    method = PointLikeSourceI3SignalGenerationMethod()
+    det = random_like(20260926)
+    for t, (srcs, idx) in enumerate(post_sampling_tables(rng, n_random)):
+        r = det if t < 9 else rng                      # the deterministic tables get seed-independent events
+        n = len(idx)
+        tra = [r.uniform(0, TWOPI) for _ in range(n)]
+        tdec = [math.asin(r.uniform(-0.95, 0.95)) for _ in range(n)]
+        sc = [10 ** r.uniform(-6, -0.5) for _ in range(n)]
+        rra = [(a + s_ * r.uniform(-1, 1)) % TWOPI for a, s_ in zip(tra, sc)]
+        rdec = [clampdec(d + s_ * r.uniform(-1, 1)) for d, s_ in zip(tdec, sc)]
+        events = DataFieldRecordArray(dict(true_ra=np.array(tra), true_dec=np.array(tdec), ra=np.array(rra), dec=np.array(rdec),
+                                           sin_dec=np.sin(np.array(rdec))))
+        meta = np.empty((n,), dtype=[('shg_src_idx', np.int64)])
+        meta['shg_src_idx'] = idx
+        case0 = {'f': 'post-sampling', 'sources': srcs, 'shg_src_idx': idx, 'true_ra': tra, 'true_dec': tdec, 'reco_ra': rra,
+                 'reco_dec': rdec}
+        ctx.case(case0)
+        ctx.count('post-sampling:tables')
+        if sorted(set(idx)) != list(range(len(set(idx)))):
+            ctx.count('post-sampling:sparse-or-shifted-index-table')
+        try:
+            with np.errstate(all='ignore'):
+                out = method.signal_event_post_sampling_processing(_SHG(srcs), meta, events)
+            ora, odec, osd = (np.array(out['ra'], dtype=np.float64), np.array(out['dec'], dtype=np.float64),
+                              np.array(out['sin_dec'], dtype=np.float64))
+            assert len(out) == n and ora.shape == (n,), (len(out), ora.shape)
+        except Exception as ex:
+            ctx.violation(PS_SITE, 'raises-' + type(ex).__name__, str(ex)[:200], case=case0,
+                          predicate='processes every event of the source hypothesis group')
+            continue
+        if list(meta['shg_src_idx']) != idx or list(out['true_ra']) != tra or list(out['true_dec']) != tdec:
+            ctx.violation(PS_SITE, 'inputs-modified', 'meta data or the true directions changed', case=case0,
+                          predicate='only ra / dec / sin_dec of the events are rewritten')
+        for i in range(n):
+            (sra, sdec) = srcs[idx[i]]
+            c = {'f': 'rsesps', 'kind': 'post-sampling', 'src_ra': sra, 'src_dec': sdec, 'true_ra': tra[i], 'true_dec': tdec[i],
+                 'reco_ra': rra[i], 'reco_dec': rdec[i], 'impl': [float(ora[i]), float(odec[i])], 'event': i, 'table': idx,
+                 'sources': srcs}
+            ctx.count('post-sampling:events')
+            lines.append(hexline('rses', sra, sdec, tra[i], tdec[i], rra[i], rdec[i]))
+            checks.append(c)
+            (ra, dec) = c['impl']
+            if not (0.0 <= ra < TWOPI and -HALFPI <= dec <= HALFPI):
+                ctx.violation(PS_SITE, 'coordinates-out-of-range', f'event {i}: ({ra!r}, {dec!r})', case=case0, impl=[ra, dec],
+                              predicate='0 <= ra < 2pi, -pi/2 <= dec <= pi/2')
+                continue
+            want = vincenty(rra[i], rdec[i], tra[i], tdec[i])
+            got = vincenty(ra, dec, sra, sdec)
+            tol = 64 * EPS * rses_cond(c, dec) + 16 * EPS * (abs(sra) + abs(tra[i]) + abs(rra[i]))
+            if abs(got - want) > tol:
+                others = [j for j, (a, b) in enumerate(srcs) if j != idx[i] and abs(vincenty(ra, dec, a, b) - want) <= 1e-9]
+                ctx.violation(PS_SITE, 'rotated-onto-wrong-source' if others else 'separation-from-own-source-not-preserved',
+                              f'event {i} sampled for source {idx[i]}: separation from it {got!r}, reco-true {want!r}'
+                              + (f'; the event sits at that separation from source {others[0]}' if others else ''),
+                              case=case0, impl=[ra, dec], model=want,
+                              predicate='sep(rotated reco, source_list[shg_src_idx]) == sep(reco, true)')
+            if float(osd[i]) != math.sin(dec) and abs(float(osd[i]) - math.sin(dec)) > 4 * EPS:
+                ctx.violation(PS_SITE, 'sin_dec-not-updated', f'event {i}: sin_dec={float(osd[i])!r}, sin(dec)={math.sin(dec)!r}',
+                              case=case0, predicate='sin_dec == sin(dec) after the rotation')
+
+
+def random_like(seed):
+    import random
+    return random.Random(seed)
+
+
 def run_rot(ctx, cases, lines, checks):
     from skyllh.core.utils.coords import rotate_spherical_vector
     with np.errstate(all='ignore'):
@@ -894,7 +989,7 @@ def compare(ctx, checks, outs):
             tol = 128 * EPS * cond + 128 * EPS / max(math.cos(m[1]), 3e-8) + 64 * EPS * sum(abs(v) for v in ins)
             if d > tol:
                 ctx.disagree('coords.rot', c, imp, m, f'directions differ by {d:.3g} > {tol:.3g}')
-        elif f == 'rses':
+        elif f in ('rses', 'rsesps'):
             m = parse(next(it))
             imp = c['impl']
             keys = ('src_ra', 'src_dec', 'true_ra', 'true_dec', 'reco_ra', 'reco_dec')
@@ -903,7 +998,7 @@ def compare(ctx, checks, outs):
                     if finite(*(c[k] for k in keys)) and abs(rses_expected_z(c)) >= 1.0 - 1e-12:
                         ctx.count('corr:rses-nan-at-pole')      # arcsin of 1 +- ulp: NaN or pi/2 depending on the last bit
                     else:
-                        ctx.disagree('coords.rses', c, imp, m, 'finite / non-finite result differs')
+                        ctx.disagree('coords.' + ('post-sampling' if f == 'rsesps' else 'rses'), c, imp, m, 'finite / non-finite result differs')
                 continue
             # (i) separation from the source and (ii) declination: tight, independent of the source declination;
             # (iii) full direction: the longitude change about a source next to a pole is computed by arctan2 of two
@@ -917,11 +1012,11 @@ def compare(ctx, checks, outs):
             d = vincenty(imp[0], imp[1], m[0], m[1])
             dsep = abs(vincenty(imp[0], imp[1], c['src_ra'], c['src_dec']) - vincenty(m[0], m[1], c['src_ra'], c['src_dec']))
             if dsep > 64 * EPS * cond + big:
-                ctx.disagree('coords.rses', c, imp, m, f'separations from the source differ by {dsep:.3g}')
+                ctx.disagree('coords.' + ('post-sampling' if f == 'rsesps' else 'rses'), c, imp, m, f'separations from the source differ by {dsep:.3g}')
             elif abs(imp[1] - m[1]) > 32 * EPS * cond + big:
-                ctx.disagree('coords.rses', c, imp, m, f'declinations differ by {abs(imp[1] - m[1]):.3g}')
+                ctx.disagree('coords.' + ('post-sampling' if f == 'rsesps' else 'rses'), c, imp, m, f'declinations differ by {abs(imp[1] - m[1]):.3g}')
             elif d > 32 * EPS * cond + big + 8 * EPS * amp:
-                ctx.disagree('coords.rses', c, imp, m, f'directions differ by {d:.3g}')
+                ctx.disagree('coords.' + ('post-sampling' if f == 'rsesps' else 'rses'), c, imp, m, f'directions differ by {d:.3g}')
         elif f == 'a2r':
             m1 = parse(next(it))
             m2 = parse(next(it))
@@ -1390,6 +1485,7 @@ def execute(ctx, cases, rng, tdm_groups):
     if tdm_groups:
         run_tdm(ctx, rng, lines, checks, tdm_groups)
         run_signalpdf(ctx, rng, max(1, tdm_groups // 3))
+        run_post_sampling(ctx, rng, lines, checks, max(10, tdm_groups // 3))
     if by.get('rot'):
         run_rot(ctx, by['rot'], lines, checks)
     if by.get('rses'):
@@ -1501,6 +1597,11 @@ def replay(ctx, rp):
         ctx.notes.append('replay file has no concrete input (broken obligation): re-running the full check')
         return run(ctx)
     c = {k: v for k, v in c.items() if k not in ('impl', 'cond')}
+    if c['f'] in ('post-sampling', 'rsesps'):
+        ctx.sample({'f': 'post-sampling'})
+        lines, checks = [], []
+        run_post_sampling(ctx, ctx.rng, lines, checks, 10)
+        return model_side(ctx, lines, checks)
     if c['f'] == 'signalpdf':
         ctx.sample({'f': 'signalpdf'})
         return run_signalpdf(ctx, ctx.rng, 20)
